@@ -26,6 +26,13 @@ func init() { register("prepare", cmdPrepare) }
 // the abstract form, prepared by the REAL executor.  `arcadrv prepare` runs Arca.Model.prepare on `wf` and compares verdict
 // class and the DAG.  For C16 every text is prepared several times (Go map order is random), and accepted uncorrupted
 // workflows are additionally rendered with permuted steps / map keys / outputs and with consistently renamed steps.
+//
+// Shapes beyond the shared generator (cmd_prepare_shapes.go): expressions with several references next to another reference
+// of the same node to the same producer, differently tagged fields on one source in one object, optional expressions with
+// several sources, 2-3 loop steps over different and equal sub-workflow files (with the expectation which sub-workflow
+// types which output: `loop_types`), a typed workflow input; corruptions `backedge-hidden` and `expr-type`.  The first
+// cases of every run are one targeted case per shape (prepTargetedCases).  Sequences of different workflows on ONE
+// executor: cmd_prepare_seq.go (`seq`, `seq_texts`, `seq_diff`, `seq_shared`, `seq_fresh`).
 
 const subWorkflowFile = "sub.yaml"
 
@@ -168,6 +175,7 @@ var corruptionModes = []string{
 	"lit-type", "lit-type",
 	"missing-plugin", "missing-step", "missing-input",
 	"short-ref", "root-ref", "self-stage-ref", "collision", "unknown-root", "self-enabling-ref",
+	"expr-type", "expr-type", "backedge-hidden", "backedge-hidden",
 }
 
 // mustReject: corruption classes after which an accepted workflow is a violation of C10.
@@ -175,6 +183,7 @@ var mustReject = map[string]bool{
 	"backedge": true, "selfloop": true, "rename-step": true, "bad-stage": true, "nooutput-stage": true, "bad-output": true,
 	"bad-input-field": true, "bad-field": true, "lit-type": true, "missing-plugin": true, "missing-input": true,
 	"short-ref": true, "root-ref": true, "self-stage-ref": true, "unknown-root": true,
+	"expr-type": true, "backedge-hidden": true,
 }
 
 func pluginStepIdx(w *AWf, r *rng) int {
@@ -267,6 +276,17 @@ func corrupt(w *AWf, mode string, r *rng) (string, string) {
 			w.Steps[i].Fields["wait_for"] = expr(fmt.Sprintf("$.steps.%s.starting.started", w.Steps[j].ID))
 			return "backedge", "wait_for-started"
 		}
+	case "backedge-hidden":
+		// the back-edge is a later reference of a multi-reference expression (cmd_prepare_shapes.go)
+		if d, ok := hiddenBackedge(w, r, hiddenVariant); ok {
+			return mode, d
+		}
+		return corrupt(w, "backedge", r)
+	case "expr-type":
+		if d, ok := exprTypeCorruption(w, r); ok {
+			return mode, d
+		}
+		return "none", ""
 	case "selfloop":
 		i := pluginStepIdx(w, r)
 		if i < 0 {
@@ -467,6 +487,8 @@ func classifyPrepareErr(err error, stepIDs map[string]bool) string {
 		return "connect"
 	case strings.Contains(msg, "already exists"):
 		return "collision"
+	case strings.Contains(msg, "for binary operation"), strings.Contains(msg, "types do not match for binary expression"):
+		return "type" // an operator applied to operands of the wrong / of different types
 	case strings.Contains(msg, "input validation failed"), strings.Contains(msg, "required input"),
 		strings.Contains(msg, "cannot evaluate expression identifier"), strings.Contains(msg, "unable to infer output schema"),
 		strings.Contains(msg, "cannot read/infer workflow output schema"):
@@ -602,8 +624,43 @@ func (p prepResult) sigDiff(q prepResult) string {
 	return ""
 }
 
-// realPrepare runs FromYAML + Prepare of the real engine under recover.
-func realPrepare(text string, files map[string][]byte, stepIDs map[string]bool, back func(string) string) (res prepResult) {
+// prepSession is ONE executor (with its registry) on which several workflows are prepared one after another.
+type prepSession struct {
+	reg step.Registry
+	f   *wfFactory
+	ex  workflow.Executor
+}
+
+func newPrepSession() (*prepSession, error) {
+	reg, f, err := newRegistry(nil)
+	if err != nil {
+		return nil, err
+	}
+	ex, err := f.exec(quietLogger())
+	if err != nil {
+		return nil, err
+	}
+	return &prepSession{reg: reg, f: f, ex: ex}, nil
+}
+
+func (ps *prepSession) prepare(text string, files map[string][]byte) (workflow.ExecutableWorkflow, error) {
+	wf, err := workflow.NewYAMLConverter(ps.reg).FromYAML([]byte(text))
+	if err != nil {
+		return nil, err
+	}
+	if files == nil {
+		files = map[string][]byte{}
+	}
+	return ps.ex.Prepare(wf, files)
+}
+
+// realPrepare runs FromYAML + Prepare of the real engine under recover, on a fresh executor.
+func realPrepare(text string, files map[string][]byte, stepIDs map[string]bool, back func(string) string) prepResult {
+	return realPrepareOn(nil, text, files, stepIDs, back)
+}
+
+// realPrepareOn: ps == nil = a fresh registry and executor for this one preparation; otherwise the executor of ps.
+func realPrepareOn(ps *prepSession, text string, files map[string][]byte, stepIDs map[string]bool, back func(string) string) (res prepResult) {
 	s := newScript()
 	currentScript.Store(s)
 	defer func() {
@@ -613,17 +670,22 @@ func realPrepare(text string, files map[string][]byte, stepIDs map[string]bool, 
 			res.Err = firstLine(res.Panic)
 		}
 	}()
-	reg, f, err := newRegistry(nil)
-	if err != nil {
-		return prepResult{Verdict: "harness-error", Err: err.Error()}
+	if ps == nil {
+		var err error
+		ps, err = newPrepSession()
+		if err != nil {
+			return prepResult{Verdict: "harness-error", Err: err.Error()}
+		}
 	}
 	s.probe.Store(true)
-	prepared, err := prepareYAML(reg, f, text, files)
+	prepared, err := ps.prepare(text, files)
 	s.probe.Store(false)
 	if err != nil {
 		return prepResult{Verdict: "rejected", Err: err.Error(), ErrClass: classifyPrepareErr(err, stepIDs)}
 	}
-	dag, transl := dumpDAG(prepared.DAG())
+	dag, _ := dumpDAG(prepared.DAG())
+	// expressions with operators: same parser as on the generator side
+	_, transl := fixExprs(dag["items"])
 	res = prepResult{Verdict: "accepted", Dag: dag, Transl: transl}
 	ds := canonDump(dag)
 	sb, _ := json.Marshal(outputSchemaSig(prepared))
@@ -814,45 +876,147 @@ func usesTags(w *AWf) map[string]int {
 	return out
 }
 
-func runPrepareCase(r *rng, caseID string, tier string, forceMode string) map[string]any {
+// prepGen are the knobs of one generated case.
+type prepGen struct {
+	tier       string
+	forceMode  string   // corruption mode ("" = random)
+	forceShape string   // "" = random; "multiref:<placement>" | "mixedopt:<placement>" | "loops:<style>" | "plain"
+	typed      string   // type of the extra workflow input field `a` ("" = random choice whether and which)
+	seq        bool     // element of a sequence: corruption modes that make sense on a shared executor
+	hidden     int      // variant of the backedge-hidden corruption (-1 = random)
+	seqPlan    []string // forceShape "seq": corruption mode per element (nil = random length and modes)
+}
+
+// prepCase is a generated (and possibly corrupted) workflow ready to be prepared.
+type prepCase struct {
+	wf     *AWf
+	text   string
+	files  map[string][]byte
+	mode   string
+	detail string
+	shapes []string
+	loops  []loopExpect
+}
+
+// seqModes: corruptions used inside sequences (types and references; the executor-history dependence C10 excludes is
+// about what a text means in ITS workflow)
+var seqModes = []string{"none", "none", "none", "none", "expr-type", "expr-type", "expr-type", "lit-type", "bad-output",
+	"bad-input-field", "bad-field", "backedge"}
+
+func genPrepareCase(r *rng, g prepGen) *prepCase {
 	o := genOpts{maxSteps: 2 + r.intn(5), tags: true, failOutputs: true, enabled: true, stopIf: true, waitFor: true}
-	if tier == "thorough" {
+	if g.tier == "thorough" {
 		o.maxSteps = 2 + r.intn(13)
 	}
+	if g.seq {
+		// `opns` steps (no cancellation) appear only without stop_if: the same step id is an `op` in one workflow of the
+		// sequence and an `opns` in another
+		o.stopIf = r.chance(1, 2)
+	}
+	needThree := g.forceShape != "" && g.forceShape != "plain" || g.forceMode == "backedge-hidden"
+	if needThree && o.maxSteps < 4 {
+		o.maxSteps = 4
+	}
 	base := genWorkflow(r, o)
-	files := map[string][]byte{}
-	if r.chance(1, 2) {
+	for tries := 0; needThree && len(base.Steps) < 3 && tries < 40; tries++ {
+		base = genWorkflow(r.fork(), o)
+	}
+	pc := &prepCase{files: map[string][]byte{}}
+	shape := func(name, what string) {
+		if what != "" {
+			pc.shapes = append(pc.shapes, name+":"+what)
+		}
+	}
+	kind, arg := g.forceShape, ""
+	if k := strings.IndexByte(kind, ':'); k >= 0 {
+		kind, arg = kind[:k], kind[k+1:]
+	}
+	if r.chance(1, 2) && kind != "plain" {
 		enrich(base, r.fork())
 	}
-	if r.chance(1, 3) {
-		addForeach(base, r)
-		files[subWorkflowFile] = []byte(subWorkflowText)
+	sr := r.fork()
+	if kind == "multiref" || (kind == "" && sr.chance(1, 4)) {
+		shape("multiref", addMultiRef(base, sr, arg))
+	}
+	if kind == "mixedopt" || (kind == "" && sr.chance(1, 5)) {
+		shape("mixedopt", addMixedOptional(base, sr, arg))
+	}
+	if g.typed != "" || (kind == "" && sr.chance(1, 4)) {
+		shape("typed", addTypedInput(base, sr, g.typed))
+	}
+	switch c := sr.intn(6); {
+	case kind == "loops" || (kind == "" && c == 2):
+		pc.loops = addForeachMulti(base, sr, arg)
+		shape("loops", fmt.Sprintf("%d", len(pc.loops)))
+	case kind == "" && c < 2:
+		addForeach(base, sr)
+		shape("loops", "1")
+	}
+	for _, s := range base.Steps {
+		if s.Kind == "foreach" {
+			pc.files = allSubFiles()
+		}
 	}
 	wf := cloneWf(base)
 	mode := corruptionModes[r.intn(len(corruptionModes))]
-	if forceMode != "" {
-		mode = forceMode
+	if g.seq {
+		mode = seqModes[r.intn(len(seqModes))]
+	}
+	if g.forceMode != "" {
+		mode = g.forceMode
 	}
 	cr := r.fork()
-	mode, detail := corrupt(wf, mode, cr)
-	text := wf.yaml(nil, nil)
-	switch mode {
+	hiddenVariant = g.hidden
+	pc.mode, pc.detail = corrupt(wf, mode, cr)
+	hiddenVariant = -1
+	pc.text = wf.yaml(nil, nil)
+	switch pc.mode {
 	case "missing-plugin":
-		text = dropLine(text, detail, "plugin")
+		pc.text = dropLine(pc.text, pc.detail, "plugin")
 	case "missing-step":
-		text = dropLine(text, detail, "step")
+		pc.text = dropLine(pc.text, pc.detail, "step")
 	}
+	pc.wf = wf
+	return pc
+}
+
+// hiddenVariant forces the variant of the backedge-hidden corruption for the targeted cases (-1 = random).
+var hiddenVariant = -1
+
+// seqInfo places a case inside a sequence of workflows prepared on ONE executor.
+type seqInfo struct {
+	id    string
+	index int
+	texts []string
+	modes []string
+}
+
+// execPrepareCase prepares the case with the real engine and records everything the monitors and `arcadrv prepare`
+// look at.  With ps != nil the FIRST preparation (the one compared with the model and by the must-reject oracle) runs on
+// the shared executor of the sequence; all repetitions run on fresh executors.
+func execPrepareCase(pc *prepCase, caseID string, r *rng, ps *prepSession, seq *seqInfo) map[string]any {
+	wf, text, files, mode, detail := pc.wf, pc.text, pc.files, pc.mode, pc.detail
 	stepIDs := map[string]bool{}
 	for _, s := range wf.Steps {
 		stepIDs[s.ID] = true
 	}
-	first := realPrepare(text, files, stepIDs, nil)
-	out := map[string]any{"kind": "prepare", "id": caseID, "yaml": text, "wf": wf.json(), "corruption": mode,
+	first := realPrepareOn(ps, text, files, stepIDs, nil)
+	wfJSON, _ := fixExprs(wf.json())
+	out := map[string]any{"kind": "prepare", "id": caseID, "yaml": text, "wf": wfJSON, "corruption": mode,
 		"corruption_detail": detail, "verdict": first.Verdict, "err": first.Err, "err_class": first.ErrClass,
 		"n_steps": len(wf.Steps), "tags": usesTags(wf), "must_reject": mustReject[mode],
-		"plugin_outputs": sortedKeys(opOutputs()), "has_foreach": len(files) > 0,
+		"plugin_outputs": sortedKeys(opOutputs()), "has_foreach": len(files) > 0, "shapes": pc.shapes,
 		// picked up by the generic case tagging of the orchestrator (input distribution histogram of the evidence)
 		"result": map[string]any{"err_class": mode + ":" + first.Verdict + ":" + first.ErrClass}}
+	if len(files) > 0 {
+		ft := map[string]string{}
+		for _, s := range wf.Steps {
+			if s.Kind == "foreach" {
+				ft[s.Workflow] = string(files[s.Workflow])
+			}
+		}
+		out["files"] = ft
+	}
 	if first.Verdict == "harness-error" {
 		return map[string]any{"kind": "harness-error", "id": caseID, "error": first.Err}
 	}
@@ -869,16 +1033,45 @@ func runPrepareCase(r *rng, caseID string, tier string, forceMode string) map[st
 		_ = json.Unmarshal([]byte(first.NS), &nj)
 		out["output_schemas"] = sj
 		out["namespaces"] = nj
+		// C10 / C16: every loop step is typed by its own sub-workflow
+		if len(pc.loops) > 0 && mode == "none" {
+			lt := []any{}
+			for _, e := range pc.loops {
+				lt = append(lt, map[string]any{"output": e.Output, "key": e.Key, "step": e.Step, "file": e.File, "whole": e.Whole,
+					"expect_fields": e.Fields, "got_fields": loopObserved(sj, e)})
+			}
+			out["loop_types"] = lt
+		}
 	}
 
 	// ---- C16: repeat, permute, rename ----
 	variants := []string{}
 	diffs := []string{}
 	classes := map[string]bool{first.ErrClass: true}
+	// side renders what one preparation gave, with the component named by d in full
+	side := func(p prepResult, d string) map[string]any {
+		m := map[string]any{"verdict": p.Verdict, "err": p.Err, "err_class": p.ErrClass}
+		var v any
+		switch d {
+		case "dag":
+			_ = json.Unmarshal([]byte(p.DagSig), &v)
+			m["dag"] = v
+		case "schema":
+			_ = json.Unmarshal([]byte(p.Schemas), &v)
+			m["output_schemas"] = v
+		case "namespaces":
+			_ = json.Unmarshal([]byte(p.NS), &v)
+			m["namespaces"] = v
+		}
+		return m
+	}
 	note := func(name string, res prepResult) {
 		variants = append(variants, name+":"+res.Verdict)
 		classes[res.ErrClass] = true
 		if d := first.sigDiff(res); d != "" {
+			if len(diffs) == 0 {
+				out["c16_observed"] = map[string]any{"variant": name, "what": d, "first": side(first, d), "other": side(res, d)}
+			}
 			diffs = append(diffs, name+":"+d)
 		}
 	}
@@ -886,8 +1079,51 @@ func runPrepareCase(r *rng, caseID string, tier string, forceMode string) map[st
 	if first.Verdict == "panic" {
 		repeats = 0
 	}
+	repName := "repeat"
+	if ps != nil {
+		repName = "fresh"
+	}
+	fresh := []prepResult{}
 	for k := 0; k < repeats; k++ {
-		note(fmt.Sprintf("repeat%d", k), realPrepare(text, files, stepIDs, nil))
+		res := realPrepareOn(nil, text, files, stepIDs, nil)
+		fresh = append(fresh, res)
+		note(fmt.Sprintf("%s%d", repName, k), res)
+	}
+	if ps != nil && len(fresh) > 0 {
+		// C10: Prepare is a function of the workflow text and its context, not of what the executor prepared before.  The
+		// difference is attributed to the executor's history only when the fresh executors agree among themselves (a
+		// preparation that is not even deterministic on fresh executors is C16's finding, and the DAG differential's).
+		d := first.sigDiff(fresh[0])
+		stable := true
+		for _, f := range fresh[1:] {
+			if fresh[0].sigDiff(f) != "" {
+				stable = false
+			}
+		}
+		if d != "" && stable && seq != nil {
+			// ... and when it reproduces: the same prefix of the sequence on another new executor gives the shared result again
+			again := prepResult{Verdict: "harness-error"}
+			if ps2, err := newPrepSession(); err == nil {
+				for _, t := range seq.texts[:seq.index] {
+					_ = realPrepareOn(ps2, t, allSubFiles(), stepIDs, nil)
+				}
+				again = realPrepareOn(ps2, text, files, stepIDs, nil)
+			}
+			if first.sigDiff(again) == "" {
+				out["seq_diff"] = d
+				out["seq_shared"] = side(first, d)
+				out["seq_fresh"] = side(fresh[0], d)
+			} else {
+				out["seq_not_reproduced"] = d
+			}
+		}
+		out["seq_fresh_stable"] = stable
+		out["seq_class_differs"] = first.Verdict == "rejected" && fresh[0].Verdict == "rejected" && first.ErrClass != fresh[0].ErrClass
+	}
+	if seq != nil {
+		out["seq"] = map[string]any{"id": seq.id, "index": seq.index, "n": len(seq.texts)}
+		out["seq_texts"] = seq.texts
+		out["seq_corruptions"] = seq.modes
 	}
 	if first.Verdict == "accepted" && mode == "none" {
 		pr := r.fork()
@@ -901,7 +1137,7 @@ func runPrepareCase(r *rng, caseID string, tier string, forceMode string) map[st
 				return out
 			}
 			ptext := wf.yaml(pr.perm(len(wf.Steps)), keyPerm)
-			note(fmt.Sprintf("perm%d", k), realPrepare(ptext, files, stepIDs, nil))
+			note(fmt.Sprintf("perm%d", k), realPrepareOn(nil, ptext, files, stepIDs, nil))
 		}
 		// consistent renaming
 		m := map[string]string{}
@@ -925,7 +1161,7 @@ func runPrepareCase(r *rng, caseID string, tier string, forceMode string) map[st
 			}
 			return s
 		}
-		note("rename", realPrepare(rwf.yaml(pr.perm(len(rwf.Steps)), nil), files, rids, back))
+		note("rename", realPrepareOn(nil, rwf.yaml(pr.perm(len(rwf.Steps)), nil), files, rids, back))
 		out["rename_map"] = m
 	}
 	out["c16_variants"] = variants
@@ -940,10 +1176,39 @@ func runPrepareCase(r *rng, caseID string, tier string, forceMode string) map[st
 	return out
 }
 
+// targetedCases: the deterministic head of every run, so that every tier contains every shape the statements of C10 / C15 /
+// C16 quantify over and the shared generator lacks (one entry = one case, or one sequence for "seq").
+func prepTargetedCases() []prepGen {
+	t := []prepGen{}
+	for _, p := range multiRefPlacements {
+		t = append(t, prepGen{forceShape: "multiref:" + p, forceMode: "none", hidden: -1})
+	}
+	for v := 0; v < 5; v++ {
+		t = append(t, prepGen{forceShape: "plain", forceMode: "backedge-hidden", hidden: v})
+	}
+	for k := 0; k < 2; k++ {
+		for _, p := range mixedOptionalPlacements {
+			t = append(t, prepGen{forceShape: "mixedopt:" + p, forceMode: "none", hidden: -1})
+		}
+	}
+	for _, s := range []string{"different", "different", "different", "mixed", "mixed", "equal", "compatible", "compatible"} {
+		t = append(t, prepGen{forceShape: "loops:" + s, forceMode: "none", hidden: -1})
+	}
+	for k := 0; k < 3; k++ {
+		t = append(t, prepGen{forceShape: "plain", forceMode: "expr-type", typed: []string{"string", "int", "bool"}[k], hidden: -1})
+	}
+	for _, plan := range [][]string{{"none", "expr-type"}, {"none", "none", "expr-type"}, {"none", "lit-type", "none"},
+		{"none", "expr-type", "none", "expr-type"}, nil, nil} {
+		t = append(t, prepGen{forceShape: "seq", hidden: -1, seqPlan: plan})
+	}
+	return t
+}
+
 func cmdPrepare(args []string) int {
-	var mode, file string
+	var mode, file, shape string
 	c, _ := parseCommon("prepare", args, func(fs *flag.FlagSet) {
 		fs.StringVar(&mode, "mode", "", "force one corruption mode")
+		fs.StringVar(&shape, "shape", "", "force one shape (multiref:<placement> | mixedopt:<placement> | loops:<style> | plain | seq)")
 		fs.StringVar(&file, "file", "", "prepare this workflow file (replay of a reported text) instead of generating cases")
 	})
 	w := openOut(c.out)
@@ -954,15 +1219,34 @@ func cmdPrepare(args []string) int {
 			fmt.Fprintln(os.Stderr, err)
 			return 2
 		}
-		res := realPrepare(string(text), map[string][]byte{subWorkflowFile: []byte(subWorkflowText)}, map[string]bool{}, nil)
+		res := realPrepare(string(text), allSubFiles(), map[string]bool{}, nil)
 		w.emit(map[string]any{"kind": "prepare-file", "id": file, "verdict": res.Verdict, "err": res.Err,
 			"err_class": res.ErrClass, "panic_text": res.Panic})
 		return 0
 	}
 	r := newRng(c.seed)
-	for i := 0; i < c.n; i++ {
+	targets := prepTargetedCases()
+	if mode != "" || shape != "" {
+		targets = nil
+	}
+	emitted := 0
+	for i := 0; emitted < c.n; i++ {
 		cr := r.fork()
-		w.emit(runPrepareCase(cr, fmt.Sprintf("prepare-%d-%d", c.seed, i), c.tier, mode))
+		g := prepGen{tier: c.tier, forceMode: mode, forceShape: shape, hidden: -1}
+		if i < len(targets) {
+			g = targets[i]
+			g.tier = c.tier
+		}
+		id := fmt.Sprintf("prepare-%d-%d", c.seed, i)
+		if g.forceShape == "seq" || (g.forceShape == "" && g.forceMode == "" && cr.chance(1, 12)) {
+			for _, out := range runPrepareSeq(cr, id, c.tier, g.seqPlan) {
+				w.emit(out)
+				emitted++
+			}
+			continue
+		}
+		w.emit(execPrepareCase(genPrepareCase(cr, g), id, cr, nil, nil))
+		emitted++
 	}
 	return 0
 }
